@@ -94,7 +94,7 @@ func (r *rewriter) expr(e ast.Expr) ast.Expr {
 			r.used["vhttp"] = true
 			return sel("vhttp", "Server")
 		}
-		for _, n := range []string{"Mutex", "RWMutex", "WaitGroup", "Once"} {
+		for _, n := range []string{"Mutex", "RWMutex", "WaitGroup", "Once", "Pool"} {
 			if isPkgSel(x, "sync", n) {
 				r.used["vsync"] = true
 				return sel("vsync", n)
